@@ -150,9 +150,19 @@ def _none_guard_memos(ci: ClassInfo) -> List[Tuple[FuncInfo, str, ast.AST]]:
     out = []
     for f in ci.methods.values():
         for nd in body_nodes(f):
-            if isinstance(nd, ast.If) and isinstance(nd.test, ast.Compare) and len(nd.test.ops) == 1 and isinstance(nd.test.ops[0], ast.Is) \
-                    and isinstance(nd.test.comparators[0], ast.Constant) and nd.test.comparators[0].value is None and _is_stored(nd.test.left):
-                fld = nd.test.left.attr
+            if not isinstance(nd, ast.If):
+                continue
+            test = nd.test
+            if isinstance(test, ast.BoolOp) and isinstance(test.op, ast.Or) and test.values:
+                # `self._m is None or len(self._m) != n`: a size heuristic adds recomputations but cannot stand in for invalidation
+                # (an in-place replacement keeps every length), so the memo is judged as the plain None-guarded one
+                def _len_cmp(v):
+                    return isinstance(v, ast.Compare) and any(isinstance(c, ast.Call) and isinstance(c.func, ast.Name) and c.func.id == "len" for c in ast.walk(v))
+                if all(_len_cmp(v) for v in test.values[1:]):
+                    test = test.values[0]
+            if isinstance(test, ast.Compare) and len(test.ops) == 1 and isinstance(test.ops[0], ast.Is) \
+                    and isinstance(test.comparators[0], ast.Constant) and test.comparators[0].value is None and _is_stored(test.left):
+                fld = test.left.attr
                 for st in nd.body:
                     if isinstance(st, ast.Assign) and any(_is_stored(t) and t.attr == fld for t in st.targets):
                         out.append((f, fld, st.value))
@@ -400,6 +410,65 @@ def check_snapshot_guards(ctx: CheckContext, p: Program, r: Resolver, classes: L
     return n
 
 
+
+# ------------------------------------------------------------------------------------------ MEMO-PARAM
+def check_param_memos(ctx: CheckContext, p: Program, r: Resolver, funcs: List[FuncInfo], rule: str = "MEMO-PARAM") -> int:
+    """`if not P.a: P.a = f(P)` inside a function that received P: a result computed from P's state is parked on P and re-used by the next call.
+    That is only sound if P's class drops `a` whenever the state it was computed from changes.  The rule reports the construct when the class of P
+    has NO method (besides __init__ and the accessor pair of `a` itself) that assigns the backing field - i.e. no invalidation exists at all."""
+    ctx.rule(rule, "no function parks a result computed from a parameter object on that object behind an emptiness test (`if not P.a: P.a = f(P)`) unless the "
+                   "object's class has some method that drops the parked value; one obligation per such guarded store")
+    n = 0
+    for f in funcs:
+        if isinstance(f.node, ast.Lambda):
+            continue
+        params = {a.arg for a in f.params} - {"self", "cls"}
+        for nd in body_nodes(f):
+            if not isinstance(nd, ast.If):
+                continue
+            t = nd.test
+            probe = None
+            if isinstance(t, ast.UnaryOp) and isinstance(t.op, ast.Not):
+                probe = t.operand
+            elif isinstance(t, ast.Compare) and len(t.ops) == 1 and isinstance(t.ops[0], (ast.Is, ast.Eq)) and isinstance(t.comparators[0], ast.Constant) \
+                    and t.comparators[0].value is None:
+                probe = t.left
+            if not (isinstance(probe, ast.Attribute) and isinstance(probe.value, ast.Name) and probe.value.id in params):
+                continue
+            obj, attr = probe.value.id, probe.attr
+            for st in nd.body:
+                if not (isinstance(st, ast.Assign) and any(isinstance(tg, ast.Attribute) and isinstance(tg.value, ast.Name) and tg.value.id == obj and tg.attr == attr
+                                                           for tg in st.targets)):
+                    continue
+                if not (isinstance(st.value, ast.Call) and any(isinstance(x, ast.Name) and x.id == obj for a in list(st.value.args) + [k.value for k in st.value.keywords]
+                                                               for x in ast.walk(a))):
+                    continue
+                ci = r.type_of(f, probe.value)
+                n += 1
+                key = f"{f.qualname}:{obj}.{attr}"
+                if ci is None:
+                    ctx.info.setdefault("memo_param_undecided", []).append(f"{f.module.relpath}:{nd.lineno}: class of '{obj}' unknown")
+                    ctx.ob(rule, key, f"{f.module.relpath}:{nd.lineno}", True, "")
+                    continue
+                backing = {attr, "_" + attr}
+                g0 = ci.methods.get(attr)
+                if g0 is not None and g0.is_property:
+                    backing |= {y.attr for y in ast.walk(g0.node) if _is_stored(y)}
+                droppers = []
+                for nm, g in list(ci.methods.items()) + list(ci.setters.items()):
+                    if nm in ("__init__", attr):
+                        continue
+                    if any(isinstance(a, (ast.Assign, ast.AugAssign, ast.AnnAssign, ast.Delete))
+                           and any(_is_stored(tg) and tg.attr in backing for tg in (a.targets if isinstance(a, (ast.Assign, ast.Delete)) else [a.target]))
+                           for a in body_nodes(g)):
+                        droppers.append(nm)
+                ok = bool(droppers)
+                ctx.ob(rule, key, f"{f.module.relpath}:{nd.lineno}", ok,
+                       "" if ok else f"`{ast.unparse(st)[:80]}` runs only when `{ast.unparse(nd.test)}`: the value computed from '{obj}' is parked on '{obj}' and re-used by later "
+                                     f"calls, but no method of {ci.name} ever drops '{attr}' - after any change to the object (streams, options, new targets) the parked "
+                                     f"value is stale")
+    return n
+
 def check_all(ctx: CheckContext, p: Program, r: Resolver, funcs: List[FuncInfo]) -> int:
     """the three cache disciplines over a set of functions and the classes they belong to"""
     classes = []
@@ -410,4 +479,4 @@ def check_all(ctx: CheckContext, p: Program, r: Resolver, funcs: List[FuncInfo])
     # view classes nested in an anchored class are reached through their owner
     classes = [c for c in classes if not any(c in (getattr(o, "inner", {}) or {}).values() for o in classes)]
     return check_memo_keys(ctx, p, r, funcs) + check_snapshot_guards(ctx, p, r, classes) + check_memo_dependencies(ctx, p, r, classes) \
-        + check_no_registry_skip(ctx, p, r, funcs) + check_memo_coherence(ctx, p, r, classes)
+        + check_no_registry_skip(ctx, p, r, funcs) + check_memo_coherence(ctx, p, r, classes) + check_param_memos(ctx, p, r, funcs)
